@@ -154,6 +154,14 @@ int main() {
     }
     alg.freeAssociatedObjects();
   }
+  {
+    // a separation stated with a NEGATIVE gap ("r may be at most |g| before l") must reach the solver as stated
+    vpsc::Variables vs; vpsc::Constraints cs; vpsc::Rectangles bbs; for (int i = 0; i < 2; ++i) vs.push_back(new vpsc::Variable(i, 0));
+    SeparationConstraint neg(vpsc::XDIM, 0, 1, -30.0, false);
+    neg.generateSeparationConstraints(vpsc::XDIM, vs, cs, bbs);
+    if (cs.size() != 1 || cs[0]->left != vs[0] || cs[0]->right != vs[1] || cs[0]->gap != -30.0 || cs[0]->equality) {
+      printf("SeparationConstraint(XDIM, 0, 1, -30): generated var%d + %g %s var%d\n", cs.empty() ? -1 : cs[0]->left->id, cs.empty() ? 0.0 : cs[0]->gap, (!cs.empty() && cs[0]->equality) ? "==" : "<=", cs.empty() ? -1 : cs[0]->right->id); bad++; }
+  }
   if (bad) { printf("REPRODUCED: %d generated constraint(s) / projected coordinate(s) differ from the user constraint\n", bad); return 1; }
   printf("not reproduced\n"); return 0;
 }
@@ -485,6 +493,52 @@ def jobs(tier):
                                                   {"i": "1::1::i", "subConstraintSatisfiable": "1::subConstraintSatisfiable"})]),
                   domain="valid sets of up to 1000 constraints (a pool of distinct live objects), both dimensions, ghost constraint index K",
                   expect=[r'w_flag_scan0\.postcondition', r'loop_invariant_base', r'loop_invariant_step', r'loop_decreases']))
+    # ---------------- SeparationConstraint: what the user states when CONSTRUCTING it is what generateSeparationConstraints hands to VPSC
+    # (both constructor forms; the constructor's body runs on an object whose members hold what the initialiser list -- checked textually -- gives them)
+    vip = slice_block(CC, r'^class VarIndexPair : public SubConstraintInfo', "class VarIndexPair")
+    sci2 = slice_func("libcola/compound_constraints.h", r'^\s*SubConstraintInfo\(unsigned ind\) :', "SubConstraintInfo::SubConstraintInfo")
+    pre_ctor2 = pre({}).replace("class SubConstraintInfo {\n    public:\n", "class SubConstraintInfo {\n    public:\n" + sci2.text +
+                                "\n        SubConstraintInfo() {}   // only so that the other prelude classes derived from it still compile; never called\n")
+    a_ = pre_ctor2.index("class VarIndexPair : public SubConstraintInfo {"); b_ = pre_ctor2.index("};", a_) + 2
+    pre_ctor2 = (pre_ctor2[:a_] + "class VariableIDMap { public: unsigned mappingForVariable(const unsigned index, bool forward) const; };\n" + vip.text + ";\n" + pre_ctor2[b_:]).replace("class VariableIDMap;\n", "", 1)
+    ctor_jobs = []
+    for form, sigre, params, ltype in (("nodes", r'^SeparationConstraint::SeparationConstraint\(const vpsc::Dim dim,\s*unsigned l, unsigned r, double g, bool equality\)',
+                                        "const vpsc::Dim dim, unsigned l, unsigned r, double g, bool equality", "unsigned"),
+                                       ("alignments", r'^SeparationConstraint::SeparationConstraint\(const vpsc::Dim dim,\s*AlignmentConstraint \*l, AlignmentConstraint \*r, double g,\s*bool equality\)',
+                                        "const vpsc::Dim dim, AlignmentConstraint *l, AlignmentConstraint *r, double g, bool equality", "AlignmentConstraint *")):
+        sc_ctor = slice_func(CC, sigre, "SeparationConstraint::SeparationConstraint [%s form]" % form)
+        chdr, cbody_ = body_of(sc_ctor.text)
+        if not (re.search(r'\bgap\(g\)', chdr) and re.search(r'\bequality\(equality\)', chdr) and re.search(r':\s*CompoundConstraint\(dim\)', chdr)):
+            raise Undecided("C07: initialiser list of SeparationConstraint's constructor (%s form) changed: %s" % (form, chdr.strip()[-200:]))
+        ctor_jobs.append((form, sc_ctor, params, cbody_))
+    members = "".join("        void verif_ctor_body_%s(%s);\n" % (f_, p_) for f_, _, p_, _ in ctor_jobs)
+    pre_ctor3 = pre_ctor2.replace("        vpsc::Constraint *vpscConstraint;\n};", "        vpsc::Constraint *vpscConstraint;\n" + members + "};", 1)
+    if pre_ctor3 == pre_ctor2:
+        raise Undecided("C07: prelude/cola_compound.h: end of class SeparationConstraint not found")
+    sgc = slice_func(CC, r'^void SeparationConstraint::generateSeparationConstraints\(const vpsc::Dim dim,', "SeparationConstraint::generateSeparationConstraints")
+    sgc_text = subst(sgc, [(r'(assertValidVariableIndex\([^;]*\);)', r'\1 if (verif_thrown) return;', 2)])
+    ct_cxx = (base + "#include <algorithm>\n" + vpsc_part + pre_ctor3 + 'extern "C" void *malloc(size_t);\nnamespace cola {\n' + av_text + "\n" + sgc_text + "\n" +
+              "".join("void SeparationConstraint::verif_ctor_body_%s(%s)\n{%s}\n" % (f_, p_, b_) for f_, _, p_, b_ in ctor_jobs) + "}\n"
+              "// the scene lives on the C++ side; the C harness drives it through these functions\n"
+              "static cola::SeparationConstraint *verif_sc; static vpsc::Variable *verif_var[6]; static vpsc::Variables verif_vs; static vpsc::Constraints verif_cs; static cola::AlignmentConstraint *verif_al[2];\n"
+              'extern "C" void verif_scene(int dim, double g, int eq) {\n'
+              "  verif_sc = (cola::SeparationConstraint *)malloc(sizeof(cola::SeparationConstraint)); __CPROVER_assume(verif_sc != 0);\n"
+              "  verif_sc->_primaryDim = (vpsc::Dim)dim; verif_sc->gap = g; verif_sc->equality = eq != 0; verif_sc->vpscConstraint = 0;      // as the initialiser list leaves them\n"
+              "  verif_sc->_subConstraintInfo._d = (cola::SubConstraintInfo **)malloc(4 * sizeof(void *)); verif_sc->_subConstraintInfo._n = 0; verif_sc->_subConstraintInfo._cap = 4;\n"
+              "  for (int i = 0; i < 6; ++i) { verif_var[i] = (vpsc::Variable *)malloc(sizeof(vpsc::Variable)); verif_var[i]->id = i; }\n"
+              "  verif_vs._d = verif_var; verif_vs._n = 6; verif_vs._cap = 6; verif_cs._d = (vpsc::Constraint **)malloc(4 * sizeof(void *)); verif_cs._n = 0; verif_cs._cap = 4;\n"
+              "  for (int k = 0; k < 2; ++k) { verif_al[k] = (cola::AlignmentConstraint *)malloc(sizeof(cola::AlignmentConstraint)); verif_al[k]->variable = verif_var[4 + k]; } }\n"
+              'extern "C" void w_ctor_nodes(int dim, unsigned l, unsigned r, double g, int eq) { verif_sc->verif_ctor_body_nodes((vpsc::Dim)dim, l, r, g, eq != 0); }\n'
+              'extern "C" void w_ctor_alignments(int dim, int swapped, double g, int eq) { verif_sc->verif_ctor_body_alignments((vpsc::Dim)dim, verif_al[swapped ? 1 : 0], verif_al[swapped ? 0 : 1], g, eq != 0); }\n'
+              'extern "C" void w_generate(int dim) { vpsc::Rectangles bbs; verif_sc->generateSeparationConstraints((vpsc::Dim)dim, verif_vs, verif_cs, bbs); }\n'
+              'extern "C" unsigned long verif_ncs(void) { return verif_cs._n; }\n'
+              'extern "C" int verif_c_left(void) { return verif_cs._d[0]->left->id; }\nextern "C" int verif_c_right(void) { return verif_cs._d[0]->right->id; }\n'
+              'extern "C" double verif_c_gap(void) { return verif_cs._d[0]->gap; }\nextern "C" int verif_c_eq(void) { return verif_cs._d[0]->equality ? 1 : 0; }\n')
+    # `new vpsc::Constraint(` / `new VarIndexPair(` stay as they are: this is a plain harness (cbmc models operator new itself)
+    js.append(Job("separation_ctor_then_generate", "U", spec, "h_ctor_roundtrip", cxx=ct_cxx, defines=["JOB_ctor_roundtrip"], slices=[s_ for _, s_, _, _ in ctor_jobs] + [sgc, vip, sci2, av],
+                  flags=["--sat-solver", "cadical", "--no-malloc-may-fail"], backend="sat:cadical", unwind=8, replay=replay_c07, timeout=600,
+                  domain="both constructor forms, every gap (all doubles, compared bit for bit, negative included), equality or not, every pair of distinct node indices below 4 / both orders of two guide lines, both dimensions",
+                  expect=[r'h_ctor_roundtrip\.assertion']))
     return js
 
 
@@ -509,6 +563,8 @@ ASSUMPTIONS = [
     "makeFeasible: only the scan between a solve attempt and the roll-back decision is under contract (a flag on ANY constraint of the valid set is cleared and vetoes the "
     "alternative; bounded job anchored on the neighbouring statements + loop-contract job for any size, where 'element i of the valid set is object i of a pool of distinct "
     "live constraints' is instantiated at each access through the stub vector's element hook); priorities, alternatives' order and the restore of positions are not",
+    "separation_ctor_then_generate runs the constructors' BODIES on an object whose members hold what the initialiser lists (checked textually: gap(g), equality(equality), "
+    "CompoundConstraint(dim)) give them; CompoundConstraint's own constructor is not under contract",
     "virtual dispatch from setupVarsAndConstraints/setupExtraConstraints to the generate* members is not modelled (CBMC's C++ front end; the classes are checked one by one)",
     "variable ids are assumed non-negative (they are positions in the variable list: established for guide lines by the *_generateVariables jobs, for nodes by "
     "setupVarsAndConstraints' `new vpsc::Variable(i, coords[i])` which is not under contract)",
